@@ -162,6 +162,11 @@ func (st *State) callFunction(fn *ssa.Function, args []Value, bind []Value) Valu
 	if st.isLibraryFn(fn) {
 		st.inLibrary++
 		defer func() { st.inLibrary-- }()
+	} else if st.inLibrary > 0 && st.e.inRepo(fn) {
+		// a harness stub called from library code: its own stores are not the library's
+		saved := st.inLibrary
+		st.inLibrary = 0
+		defer func() { st.inLibrary = saved }()
 	}
 	fi := st.info(fn)
 	fr := &frame{fn: fn, info: fi, locals: make([]Value, fi.n), bind: bind}
